@@ -215,6 +215,9 @@ def info_sx(info, top):
             " ".join("(%s %s)" % (sx.name(n), info_sx(i, False)) for n, i in dt["internal_tags"].items()))
     else:
         st = "N"
+    if info.get("data_type_name") is None or info.get("type_class") is None:
+        # the driver could not resolve the type (never the case for a project of the generator): rendered so that it differs
+        return "(ti %s UNRESOLVED-TYPE)" % info.get("tag_type")
     return "(ti %s %s %s %d (%s) %s %s %s %s %s)" % (
         info["tag_type"], sx.name(info["data_type_name"]), ty_sx(info["type_class"], dt),
         info["dim"] if top else 0, " ".join(str(x) for x in info["dimensions"]) if top else "",
@@ -508,6 +511,70 @@ def run_tagdb(ctx, model, focus):
         pair.close()
 
 
+def run_reupload(ctx, model, focus):
+    """histories of uploads on one driver: after open(), `get_tag_list` is called again with another scope (controller only,
+    every program, one program).  After each call `tags` must be exactly the requested scope of the controller as the
+    reference interpretation (`Drv.tagDbOf` of the project the target holds) gives it — nothing left over from an earlier,
+    wider upload — and the returned list must have the same names."""
+    rng = ctx.rng
+    stream = "ld-reupload"
+    for i in range(ctx.budget(25, 250)):
+        o = _open_pair(ctx, model, rng, stream)
+        if o is None:
+            continue
+        p, scn, cfg, pair = o
+        if pair.ld_status != "ok":
+            pair.close()
+            continue
+        ref = {}
+        for prog in (False, True):
+            out = model.ask("ld.tagdbof " + _b(prog))
+            ref[prog] = None if not out.startswith("ok ") else _top(out)[1:]
+        progs = [n for n, _ in p["programs"]]
+        scopes = [None, "*"] + [n[len("Program:"):] for n in progs[:2]]
+        done = []
+        for step in range(rng.choice([2, 3, 4])):
+            scope = rng.choice(scopes)
+            done.append(scope)
+            case = dict(_case(ctx.seed, i, scn, cfg, []), uploads=["open(init_program_tags=%s)" % cfg["program_tags"]] + ["get_tag_list(%r)" % x for x in done])
+            ctx.case(stream, (stream, scn, tuple(map(str, done))))
+            ctx.count("%s/scope/%s" % (stream, "one-program" if scope not in (None, "*") else scope))
+            try:
+                ret = core.with_budget(120, pair.d.get_tag_list, scope)
+            except BaseException as e:  # noqa
+                if isinstance(e, (KeyboardInterrupt, SystemExit)):
+                    raise
+                ctx.violation("get-tag-list-raises:" + core.exn_class(e), case, repr(e)[:200])
+                break
+            try:
+                have = _top(tags_sx(pair.d))[1:]
+            except sx.Unrenderable:
+                ctx.unmodelled(stream)
+                break
+            if scope is None:
+                want = ref[False]
+            elif scope == "*":
+                want = ref[True]
+            else:
+                pre = repr(sx.parse(sx.name("Program:%s." % scope))[0])[:-1]      # items are reprs of (name info): match the name prefix
+                want = None if ref[True] is None else [t for t in ref[True] if t.startswith("[" + pre) or t.startswith("(" + pre)]
+            if want is None:
+                ctx.unmodelled(stream)
+                break
+            if sorted(have) != sorted(want):
+                extra = [t for t in have if t not in want]
+                missing = [t for t in want if t not in have]
+                ctx.violation("tags-differ-from-requested-scope", case,
+                              "%d tags, the controller's scope has %d; %d not in the scope (e.g. %s), %d missing (e.g. %s)" % (
+                                  len(have), len(want), len(extra), (extra[0][:120] if extra else "-"), len(missing), (missing[0][:120] if missing else "-")))
+                break
+            names = sorted(t["tag_name"] for t in ret)
+            if names != sorted(pair.d.tags):
+                ctx.violation("returned-list-differs-from-tags", case, "%d returned, %d cached" % (len(names), len(pair.d.tags)))
+                break
+        pair.close()
+
+
 def _norm(s):
     return s.replace(" )", ")").replace("( ", "(")
 
@@ -746,7 +813,7 @@ def run_altered(ctx, model, focus):
             pair.close()
             continue
         healthy = [r for r in pair.sock.replies[r0:]]
-        if not healthy or any(x is None for x in healthy):
+        if impl["result"][0] == "raise" or not healthy or any(x is None for x in healthy):
             pair.close()
             continue
         for rep in range(rng.choice([1, 2, 3])):
